@@ -141,6 +141,28 @@ CHECKS = {
     note="Constant heat capacity (the 'up to the heat-capacity discretisation' term is zero); positive heat flows only in the enumerated loops "
          "(negative duties appear in C10's exchanger scenarios); non-converged runs are not judged.",
     technique="TLA+ exact loop reference (PPRefLoop/GenLoop) model-checked with TLC + every loop replayed into pandapipes + trace validation (Trace_Loop)"),
+ "C13": dict(
+    level="model_checking",
+    text="The time-series loop is the TLA+ machine MC_TS (profile over {feasible A, feasible B, infeasible} of length <= 4, continue_on_divergence "
+         "on/off, Solve uninterpreted); TLC checks that every logged step depends on that step's inputs only and that the loop aborts exactly at "
+         "the first infeasible step when divergence is not tolerated, and emits all profiles; each is run as a real pandapipes time series "
+         "(ConstControl profiles on sinks and on the ext_grid's in_service) and Trace_TS compares every logged step with a stand-alone pipeflow on "
+         "a fresh net carrying that step's values, the failure flag of diverged steps and the abort behaviour.",
+    design_ref="DESIGN.md 5 C13",
+    note="Logged variables: junction p / t, pipe mdot / t_to, sink and ext_grid mdot (digests rounded to 1e-10). Two nets (water with pump and loop, "
+         "gas), modes hydraulics and sequential. Subsets / reorderings of the time steps and an additional in-net controller are not enumerated yet.",
+    technique="TLA+ loop model (MC_TS) model-checked with TLC + all profiles replayed into run_timeseries + trace validation (Trace_TS)"),
+ "C20": dict(
+    level="model_checking",
+    text="Conversion laws of the P2G / G2P (gas- and power-led) / G2G controllers are exact rationals in PPMulti; TLC checks round trip = product of "
+         "efficiencies and power-led = inverse of gas-led on the model and enumerates configurations (kind x input x scaling x efficiency x scalar / "
+         "vectorised indices x level, incl. an input arriving through a level-0 controller). Each is run with run_control on a real multinet "
+         "(pandapower net + designed gases); Trace_Multi compares the written values exactly, every member net's results with a stand-alone "
+         "pipeflow / runpp carrying the written values, untouched rows, and the converged flags.",
+    design_ref="DESIGN.md 5 C20",
+    note="One coupling controller per multinet (plus an optional level-0 setter); several coupled controllers with permuted orders and coupled time "
+         "series are not enumerated yet. Heating values 10 / 20 kWh/kg by design.",
+    technique="TLA+ coupling model (PPMulti/GenMulti) model-checked with TLC + configurations replayed into run_control on multinets + trace validation (Trace_Multi)"),
 }
 NA_REASON = "check not built yet in this round (work in progress; see DESIGN.md section 5 for the planned decision procedure)"
 
